@@ -1275,11 +1275,12 @@ func (y *Extension) getOriginalParent() Definition {
 }
 
 type Bit struct {
-	ident      string
-	desc       string
-	ref        string
-	Position   int
-	extensions []*Extension
+	ident       string
+	desc        string
+	ref         string
+	Position    int
+	positionSet bool
+	extensions  []*Extension
 }
 
 type Enum struct {
